@@ -9,6 +9,7 @@ import (
 	"time"
 
 	"github.com/scrapli/scrapligo/util"
+	"github.com/scrapli/scrapligo/util/simhook"
 )
 
 const inputSearchDepthMultiplier = 2
@@ -42,11 +43,17 @@ func processReadBuf(rb []byte, searchDepth int) []byte {
 }
 
 func (c *Channel) read() {
+	simhook.Enter("chan.reader")
+
 	defer func() {
 		c.readLoopExited = true
 	}()
 
+	defer simhook.Yield("chan.read.exit")
+
 	for {
+		simhook.Yield("chan.read.top")
+
 		select {
 		case <-c.done:
 			return
@@ -54,6 +61,9 @@ func (c *Channel) read() {
 		}
 
 		b, err := c.t.Read()
+
+		simhook.Yield("chan.read.ret")
+
 		if err != nil {
 			select {
 			case <-c.done:
@@ -76,6 +86,8 @@ func (c *Channel) read() {
 			c.l.Criticalf(
 				"encountered error reading from transport during channel read loop. error: %s", err,
 			)
+
+			simhook.Yield("chan.read.errsend")
 
 			c.Errs <- err
 
@@ -116,11 +128,15 @@ func (c *Channel) read() {
 // errors on the Errs channel (these would come from the underlying transport), the error is
 // returned with nil for the byte slice.
 func (c *Channel) Read() ([]byte, error) {
+	simhook.Yield("chan.Read.errs")
+
 	select {
 	case err := <-c.Errs:
 		return nil, err
 	default:
 	}
+
+	simhook.Yield("chan.Read.flag")
 
 	if c.readLoopExited {
 		return nil, util.ErrConnectionError
@@ -143,6 +159,8 @@ func (c *Channel) Read() ([]byte, error) {
 // much" from the channel causing us to not be able to "find" the prompt or inputs during normal
 // operations. In general, this should probably only be used when connecting to consoles/files.
 func (c *Channel) ReadAll() ([]byte, error) {
+	simhook.Yield("chan.ReadAll.errs")
+
 	select {
 	case err := <-c.Errs:
 		return nil, err
